@@ -769,3 +769,68 @@ Proof.
   - intro l. pose proof (len_estep c self g o l E B). specialize (L l). lia.
   - lia.
 Qed.
+
+Lemma ehist_ok_last : forall c self ops g o, ehist_ok c self g (ops ++ [o]) -> Bounded c (g_enf (erun c self g ops)).
+Proof.
+  induction ops as [|a tl IH]; intros g o H; cbn [app ehist_ok erun] in *; [apply H|].
+  destruct H as [_ H]. eapply IH. exact H.
+Qed.
+
+Lemma reachable_bounded : forall c self ops, N.of_nat (length ops) < c_track c ->
+  EInv c (erun c self eng_init ops) /\ Bounded c (g_enf (erun c self eng_init ops)).
+Proof.
+  intros c self ops H.
+  assert (K : ehist_ok c self eng_init (ops ++ [EEvict 0])).
+  { apply (ehist_ok_short c self _ eng_init 0 (einv_init c)).
+    - intro l. destruct l; cbn; lia.
+    - rewrite app_length. cbn [length]. lia. }
+  split; [|eapply ehist_ok_last; exact K].
+  apply einv_run; [apply einv_init|].
+  clear H. revert K. generalize eng_init. induction ops as [|a tl IH]; intros g K; cbn [app ehist_ok] in *; [exact I|].
+  destruct K as [B K]. split; [exact B|]. now apply IH.
+Qed.
+
+(* ------------------------------------------------------------------ *)
+(* address text                                                        *)
+(* ------------------------------------------------------------------ *)
+Lemma strip_nospace_app : forall s rest, (forall ch, In ch s -> ch <> 32) ->
+  strip_suffix (s ++ 32 :: 40 :: rest) = s.
+Proof.
+  induction s as [|a t IH]; intros rest H.
+  - reflexivity.
+  - cbn [app strip_suffix]. assert (a <> 32) by (apply H; now left).
+    replace (a =? 32) with false by (symmetry; now apply N.eqb_neq). cbn [andb].
+    f_equal. apply IH. intros ch Hc. apply H. now right.
+Qed.
+Lemma strip_nospace : forall s, (forall ch, In ch s -> ch <> 32) -> strip_suffix s = s.
+Proof.
+  induction s as [|a t IH]; intros H; [reflexivity|].
+  cbn [strip_suffix]. assert (a <> 32) by (apply H; now left).
+  replace (a =? 32) with false by (symmetry; now apply N.eqb_neq). cbn [andb].
+  f_equal. apply IH. intros ch Hc. apply H. now right.
+Qed.
+
+Section AddrTextProofs.
+  Variable parse_sock : list N -> option (ipaddr * N).
+  Variable parse_ip : list N -> option ipaddr.
+  Variable show_sock : ipaddr -> N -> list N.
+  Variable show_ip : ipaddr -> list N.
+  Variable words : ipaddr -> N -> list N.
+  Variable garbage : list N.
+  Hypothesis sock_round_trip : forall ip p, parse_sock (show_sock ip p) = Some (ip, p).
+  Hypothesis ip_not_sock : forall ip, parse_sock (show_ip ip) = None.
+  Hypothesis ip_round_trip : forall ip, parse_ip (show_ip ip) = Some ip.
+  Hypothesis sock_no_space : forall ip p ch, In ch (show_sock ip p) -> ch <> 32.
+  Hypothesis ip_no_space : forall ip ch, In ch (show_ip ip) -> ch <> 32.
+
+  Lemma gate_text_rendered : forall f, f <> FGarbage ->
+    gate_text parse_sock parse_ip (render show_sock show_ip words garbage f) = gate_ip f.
+  Proof.
+    intros f Hf. unfold gate_text. destruct f as [ip|ip p|ip p w|]; cbn [render gate_ip]; [| | |congruence].
+    - rewrite strip_nospace by apply ip_no_space. now rewrite ip_not_sock, ip_round_trip.
+    - rewrite strip_nospace by apply sock_no_space. now rewrite sock_round_trip.
+    - destruct w.
+      + cbn [app]. rewrite strip_nospace_app by apply sock_no_space. now rewrite sock_round_trip.
+      + rewrite app_nil_r, strip_nospace by apply sock_no_space. now rewrite sock_round_trip.
+  Qed.
+End AddrTextProofs.
